@@ -218,6 +218,8 @@ def run_check(P, tier, seed, a):
             env, raw = smt.parse_values(rec['raw_model']), rec['raw_model']
         else:
             env, raw = driver.get_model(b, rec['gi'], cap=(b.get('cap') or 60) if quick else 300)
+        if env is None and b.get('file') and not driver.declared_syms(open(b['file']).read()):
+            env = {}     # the obligation has no free symbol (a concrete fact about this configuration): replayed as is
         if env is None:
             inconclusive.append(f'{key}: solver said sat but produced no model')
             continue
